@@ -156,6 +156,16 @@ func (p *Path) exec(in ssa.Instruction) {
 		p.guardCheck(i.Addr, true, site)
 		p.frameCheck(site, p.flatLocs(a.T, t))
 		p.store(a.T, t, v.T)
+		// a store into an exported field of an opaque struct: the struct's value as a whole is a different one now
+		if fa, ok := i.Addr.(*ssa.FieldAddr); ok {
+			bt := fa.X.Type().Underlying().(*types.Pointer).Elem()
+			if _, isSt := bt.Underlying().(*types.Struct); isSt && !structIsData(bt) {
+				hn := env.memHeap(bt)
+				w := p.fx.fresh("whole")
+				p.declare(w, env.sortOf(bt))
+				p.setHeap(hn, fmt.Sprintf("(store %s %s %s)", p.heap(hn), p.val(fa.X).T, w))
+			}
+		}
 	case *ssa.Slice:
 		p.vals[i] = p.sliceInstr(i)
 	case *ssa.MakeSlice:
@@ -388,13 +398,25 @@ func (p *Path) guardMap(m ssa.Value, write bool, site string) {
 // ownedAt: the address belongs to an object this thread owns exclusively (an item taken from a sync.Pool, or the
 // backing array of a pooled buffer): ghost field `owned` on the object (ghost state, so it survives arbitrary calls).
 func (p *Path) ownedAt(a string) string {
-	f := p.fx.env.fieldFnNamed("gfld_any_owned")
 	h := p.heap(p.fx.env.memHeap(tBool))
-	return fmt.Sprintf("(or (select %s (%s %s)) (and (= (ftag %s) (- 1)) (select %s (%s (ibase %s)))))", h, f, a, a, h, f, a)
+	var ds []string
+	for _, f := range p.fx.env.ownedFields() {
+		ds = append(ds, fmt.Sprintf("(select %s (%s %s))", h, f, a), fmt.Sprintf("(and (= (ftag %s) (- 1)) (select %s (%s (ibase %s))))", a, h, f, a))
+	}
+	return "(or " + strings.Join(ds, " ") + ")"
 }
 
-func (p *Path) setOwned(obj string, v string) {
-	f := p.fx.env.fieldFnNamed("gfld_any_owned")
+// ownedFields: the ownership markers: the generic one and one per declared pool.
+func (e *Env) ownedFields() []string {
+	out := []string{e.fieldFnNamed("gfld_any_owned")}
+	for _, pi := range e.specs.Pools {
+		out = append(out, e.fieldFnNamed("gfld_any_owned_"+sanitize(pi.Field)))
+	}
+	return out
+}
+
+func (p *Path) setOwned(pool, obj string, v string) {
+	f := p.fx.env.fieldFnNamed("gfld_any_owned_" + sanitize(pool))
 	hn := p.fx.env.memHeap(tBool)
 	p.setHeap(hn, fmt.Sprintf("(store %s (%s %s) %s)", p.heap(hn), f, obj, v))
 }
